@@ -74,6 +74,10 @@ checks = {
  "C19": dict(cat="exploration", tech="differential monitor (random GKR topologies through std/gkr: exported values asserted against direct evaluation in-circuit and tapped through a hint against a big.Int evaluation; gkr-poseidon2 vs native and plain gadget) + adversarial-execution monitor (GkrInfo hint ids redirected on a private copy of the system: lying solve / prove hints, 33 deviations incl. best-effort proofs for wrong outputs; commitment = hash)",
    text="bn254 and bls12-377, both builders: dependency patterns (chains, trees, stars, DAGs), fan-out, depth 1-6, 1-64 instances, custom gates of degree 1-4; ~1.9k (quick) / 38k (thorough) evaluations, every deviation that changes an output, a proof element or a native input must make Solve fail. Built by a sub-agent (3/3 mutants caught); found 4 defects: 3 repaired by fix commits, 1 open known finding (single instance).",
    note="systems on which the solving hint would not terminate were predicted and skipped before the repair; Fiat-Shamir seeding weaknesses need an adaptive attacker not implemented", ref="§3 C19"),
+
+ "C17": dict(cat="exploration", tech="differential monitor against the native verifiers (same triple, matching recursion options): outer circuit satisfiable (test engine; compiled r1cs/scs sample in thorough) iff native Verify returns nil, both directions; hostile triples from the C01/C02 edit enumeration, torsion shifts, key switching; hang case in a killable child",
+   text="Groth16 and PLONK in-circuit verifiers, BLS12-377->BW6-761 (2-chain) and BN254->BN254 (emulated); inner circuits with 0/1/2 commitments; fixed vk, witness vk, SwitchVerificationKey over 1-3 keys, AssertSameProofs/AssertDifferentProofs, +-complete arithmetic, +-subgroup check; 417 (quick) / ~3.5k (thorough) triples. Built by a sub-agent (7/7 mutants caught). Two open known findings (emulated verifier hangs in gnark-crypto's half-GCD; PLONK gadget accepts torsion-shifted KZG quotients that native rejects).",
+   note="only two pairings are built; hostile keys are genuine keys of other circuits; emulated public inputs are screened for the non-terminating hint", ref="§3 C17"),
 }
 pending = {}
 for i in range(1,21):
